@@ -155,6 +155,9 @@ def run(m, tier):
     results.append(r5)
     from rules import regex_rules
     results += regex_rules.c13_rules(m)
+    r9 = C11.r11_strict_order(m, blocks, "C13.R9")
+    r9.title = "a block that enforces the order of its classes lists only parts: Include_Stmt is appended after the listed classes, so elsewhere an unresolved INCLUDE between two statements would end their matching"
+    results.append(r9)
     from rules import C08, order_rules
     from sa.report import retag
     results.append(order_rules.shared_state_rule(m, "C13.R7", ["fparser.common"], floor=12))
